@@ -151,3 +151,14 @@ def run(cx):
     _run0(cx)
     check_za_id(cx, '<impl key::Sm2PrivateKey>::sign', 'sign')
     S.s_siblings(cx, 'S-SIBLING', only=('mod-add', 'modn-sub', 'mont-mul', 'to-mont', 'from-mont', 'limb-add', 'limb-sub', 'limb-cmp', 'limb-mul'))
+
+
+_run_scalar = run
+
+
+def run(cx):
+    from . import scalar_rules as SR
+    _run_scalar(cx)
+    # [k]G of the signature and [d]G of the key: the fixed-base multiplication walks every limb of the scalar
+    SR.sm2_scalar(cx)
+    SR.acc_rules(cx, 'sm2')
